@@ -904,6 +904,7 @@ def sample_of(cfg, res):
     return {"kind": "history", "ops": [short(o) for o in cfg["ops"][:60]], "violations": len(res["violations"])}
 
 
+SIM_TIME_MEASURE = "logical time: operations per history (lock-step runs) and scheduler steps (caller-thread runs), summed in scheduler_steps_total"
 SCHEDULE_SHRINK = True
 CHUNK = 8
 CHUNK_TIMEOUT = 900
